@@ -166,6 +166,10 @@ def run_explainer(case):
                 kw['n_inner_samples'] = row['n_inner']
             try:
                 ex.explain_one(x, y, **kw)
+            except TypeError as e:
+                if mode == 'exact':   # float-only (NumPy) functions applied to losses: no exact twin available for this implementation
+                    return Result(True, nontrivial=False, labels=['exact_arithmetic_unsupported'])
+                return Result(False, key='C20:explainer:exception:TypeError', detail=f'[{mode}] {e!r}')
             except Exception as e:
                 return Result(False, key=f'C20:explainer:exception:{type(e).__name__}', detail=f'[{mode}] {e!r}')
             seq.append({refx.norm_key(k): v for k, v in ex.importance_values.items()})
